@@ -66,13 +66,17 @@ def file_cases(tier):
                         for rel in (False, True):
                             out.append({"field": field, "form": form, "alg": alg, "L": L, "name": ni, "rel": rel, "i": i})
                             i += 1
+                            if ni == 0 and form in ("file", "file_direct", "file_direct-nl", "path", "envelope-path"):
+                                for link in ("abs", "rel"):
+                                    out.append({"field": field, "form": form, "alg": alg, "L": L, "name": ni, "rel": rel, "link": link, "i": i})
+                                    i += 1
     return out
 
 
 def run_file(case, agg):
     field, form, alg, L, rel = case["field"], case["form"], case["alg"], case["L"], case["rel"]
     name = NAMES[case["name"]]
-    key = h8("c05", {k: case[k] for k in ("field", "form", "alg", "L", "name", "rel")})
+    key = h8("c05", {k: case.get(k) for k in ("field", "form", "alg", "L", "name", "rel", "link")})
     algc = registry.HASH_ALGS[alg]
     with fresh_dir("c05") as root:
         root = os.path.realpath(root)
@@ -80,6 +84,20 @@ def run_file(case, agg):
         os.makedirs(os.path.dirname(os.path.normpath(path_abs)), exist_ok=True)
         ref = name if rel else os.path.normpath(path_abs)
         data = content(L, case["name"])
+
+        def put(path, blob):
+            """the referenced file; for link cases the name given in the description is a symbolic link to it (an
+            image published as app.bin -> images/app_v1.2.3.bin): the artifact is what open() reads"""
+            if isinstance(blob, str):
+                blob = blob.encode()
+            if case.get("link"):
+                tgt_dir = os.path.join(root, "images with a rather long directory name")
+                os.makedirs(tgt_dir, exist_ok=True)
+                tgt = os.path.join(tgt_dir, "real_artifact_v1.2.3+build.4567.bin")
+                open(tgt, "wb").write(blob)
+                os.symlink(tgt if case["link"] == "abs" else os.path.relpath(tgt, os.path.dirname(os.path.normpath(path))), path)
+            else:
+                open(path, "wb").write(blob)
         child = rich_child(3, "cose-alg-sha-384")
         old = os.getcwd()
         os.chdir(root)
@@ -90,16 +108,16 @@ def run_file(case, agg):
             envx = {}
             if field == "digest":
                 if form == "file":
-                    open(path_abs, "wb").write(data)
+                    put(path_abs, data)
                     params["suit-parameter-image-digest"] = gen.digest(alg, {"file": ref})
                     want = registry.digest(algc, data)
                 elif form == "file_direct":
                     dg = registry.digest(algc, data)
-                    open(path_abs, "wb").write(dg)
+                    put(path_abs, dg)
                     params["suit-parameter-image-digest"] = gen.digest(alg, {"file_direct": ref})
                     want = dg
                 elif form == "envelope-path":
-                    open(path_abs, "wb").write(child_bytes)
+                    put(path_abs, child_bytes)
                     params["suit-parameter-image-digest"] = gen.digest(alg, {"envelope": ref})
                     want = registry.digest(algc, _man_item(child_bytes))
                 elif form == "envelope-inline":
@@ -110,15 +128,15 @@ def run_file(case, agg):
                     want = b"\x0a" * 20
             elif field == "size":
                 if form == "file":
-                    open(path_abs, "wb").write(data)
+                    put(path_abs, data)
                     params["suit-parameter-image-size"] = {"file": ref}
                     want = L
                 elif form.startswith("file_direct"):
-                    open(path_abs, "w").write(str(L) + ("\n" if form.endswith("nl") else ""))
+                    put(path_abs, str(L) + ("\n" if form.endswith("nl") else ""))
                     params["suit-parameter-image-size"] = {"file_direct": ref}
                     want = L
                 elif form == "envelope-path":
-                    open(path_abs, "wb").write(child_bytes)
+                    put(path_abs, child_bytes)
                     params["suit-parameter-image-size"] = {"envelope": ref}
                     want = len(child_bytes)
                 elif form == "envelope-inline":
@@ -131,7 +149,7 @@ def run_file(case, agg):
                 member = "suit-integrated-payloads" if field == "payload" else "suit-integrated-dependencies"
                 if form == "path":
                     blob = data if field == "payload" else child_bytes
-                    open(path_abs, "wb").write(blob)
+                    put(path_abs, blob)
                     envx[member] = {"#x": ref}
                     want = blob
                 elif form == "inline-envelope":
@@ -143,7 +161,7 @@ def run_file(case, agg):
                     envx[member] = {"#x": "abcdef"}
                     want = bytes.fromhex("abcdef")
             desc = gen.minimal(man={"suit-install": [{"suit-directive-override-parameters": {"suit-parameter-uri": "#x", **params}}]}, env=envx)
-            label = f"{field} via {form}, alg {alg}, file {name!r} ({'relative' if rel else 'absolute'}), length {L}"
+            label = f"{field} via {form}, alg {alg}, file {name!r} ({'relative' if rel else 'absolute'}{', a symbolic link (' + case['link'] + ')' if case.get('link') else ''}), length {L}"
             try:
                 if seed_slice(case["i"], 23):
                     out = impl.tool_create_main(desc, root, "yaml" if case["i"] % 2 else "json")
